@@ -85,6 +85,7 @@ def check(run):
     run.floor('C15-MIRROR', nst, 150)
     cmdfiles(run, p, fc)
     rawlines(run, p, fc)
+    tmpcfg(run, p, rt, fc)
 
 
 def cmdfiles(run, p, fc):
@@ -169,3 +170,108 @@ def _is_raw(p, f, name):
     if early:
         return False, 'copied from %s after it was rewritten at line %d' % (src.id, early[0].lineno)
     return True, 'a copy of parameter %s taken before any rewrite' % src.id
+
+
+def tmpcfg(run, p, rt, fc):
+    run.rule('C15-TMPCFG', 'the directory artefacts go to is the configured one: ReferenceTest hands its tmp_dir to the text comparison '
+                           'object, and the comparison constructor keeps whatever non-empty directory it is given - over every outcome '
+                           'of any other test in the constructor (existence checks and the like), self.tmp_dir ends up as the argument')
+    init = p.lookup_method(rt.qn, '__init__')
+    n = 0
+    for x in p.own_nodes(init):
+        if isinstance(x, ast.Call) and norm(x.func).split('.')[-1] == fc.name:
+            n += 1
+            kw = {k.arg: k.value for k in x.keywords if k.arg}
+            v = kw.get('tmp_dir')
+            ok = v is not None and norm(v) == 'self.tmp_dir'
+            run.ob('C15-TMPCFG', '%s::%s::%s(tmp_dir=)' % (init.rel, init.short, fc.name), ok,
+                   '%s is constructed with tmp_dir=%s' % (fc.name, norm(v) if v is not None else '<not passed: the system default is used>'),
+                   fn=init, node=x)
+    binit = p.lookup_method(fc.qn, '__init__')
+    if binit is None or 'tmp_dir' not in binit.params:
+        raise AnalysisError('%s.__init__ has no tmp_dir parameter' % fc.name)
+    atoms = []
+    for x in p.own_nodes(binit):
+        tests = []
+        if isinstance(x, (ast.If, ast.IfExp, ast.While)):
+            tests.append(x.test)
+        if isinstance(x, ast.BoolOp):
+            tests.extend(x.values[:-1])
+        for t in tests:
+            for a in _atoms(t):
+                if a not in atoms:
+                    atoms.append(a)
+    import itertools
+    bad = None
+    cases = 0
+    for vals in itertools.product((False, True), repeat=len(atoms)):
+        env = dict(zip(atoms, vals))
+        cases += 1
+        st = {'tmp_dir': 'ARG'}
+        final = _sym_block(binit.node.body, st, env)
+        if st.get('self.tmp_dir') != 'ARG':
+            bad = (env, st.get('self.tmp_dir'))
+            break
+    n += 1
+    run.ob('C15-TMPCFG', '%s::%s::keeps-argument' % (binit.rel, binit.short), bad is None,
+           '%s: a non-empty tmp_dir argument is kept in all %d outcomes of the constructor\'s other tests %s' % (
+               binit.short, cases, sorted(atoms)) if bad is None else
+           '%s: with %s the configured directory is replaced by %s' % (binit.short, {k: v for k, v in bad[0].items()}, bad[1]),
+           fn=binit)
+    run.floor('C15-TMPCFG', n, 2)
+
+
+def _atoms(t):
+    """Sub-tests that are not a function of the argument's own truthiness."""
+    if isinstance(t, ast.BoolOp):
+        return [a for v in t.values for a in _atoms(v)]
+    if isinstance(t, ast.UnaryOp) and isinstance(t.op, ast.Not):
+        return _atoms(t.operand)
+    if isinstance(t, ast.Name):
+        return []
+    if isinstance(t, ast.Compare) and len(t.ops) == 1 and isinstance(t.ops[0], (ast.Is, ast.IsNot)) and isinstance(t.left, ast.Name) \
+            and isinstance(t.comparators[0], ast.Constant) and t.comparators[0].value is None:
+        return []
+    return [norm(t)]
+
+
+def _sym_truth(t, st, env):
+    if isinstance(t, ast.BoolOp):
+        vs = [_sym_truth(v, st, env) for v in t.values]
+        return all(vs) if isinstance(t.op, ast.And) else any(vs)
+    if isinstance(t, ast.UnaryOp) and isinstance(t.op, ast.Not):
+        return not _sym_truth(t.operand, st, env)
+    if isinstance(t, ast.Name):
+        return st.get(t.id) in ('ARG', 'OTHER')          # the argument is non-empty in the case analysed; a replacement is a directory
+    if isinstance(t, ast.Compare) and len(t.ops) == 1 and isinstance(t.ops[0], (ast.Is, ast.IsNot)) and isinstance(t.left, ast.Name):
+        isnone = st.get(t.left.id) not in ('ARG', 'OTHER')
+        return isnone if isinstance(t.ops[0], ast.Is) else not isnone
+    return env[norm(t)]
+
+
+def _sym_val(e, st, env):
+    if isinstance(e, ast.Name):
+        return st.get(e.id, 'OTHER')
+    if isinstance(e, ast.Attribute):
+        return st.get(norm(e), 'OTHER')
+    if isinstance(e, ast.BoolOp) and isinstance(e.op, ast.Or):
+        for v in e.values[:-1]:
+            if _sym_truth(v, st, env):
+                return _sym_val(v, st, env)
+        return _sym_val(e.values[-1], st, env)
+    if isinstance(e, ast.IfExp):
+        return _sym_val(e.body if _sym_truth(e.test, st, env) else e.orelse, st, env)
+    return 'OTHER'
+
+
+def _sym_block(stmts, st, env):
+    for s in stmts:
+        if isinstance(s, ast.If):
+            _sym_block(s.body if _sym_truth(s.test, st, env) else s.orelse, st, env)
+        elif isinstance(s, ast.Assign):
+            v = _sym_val(s.value, st, env)
+            for t in s.targets:
+                if isinstance(t, (ast.Name, ast.Attribute)):
+                    st[norm(t)] = v
+        elif isinstance(s, (ast.With, ast.Try)):
+            _sym_block(s.body, st, env)
